@@ -1450,7 +1450,14 @@ def corpus():
     c2 = ["chr1", "demo", "CDS", 80, 120, None, "+", 1, at]
     shared = {"kind": "gff_edit", "ops": ["gff_new", f"gff_append {safe} {enc_entry(c1)}", f"gff_append {safe} {enc_entry(c2)}", "gff_poke", "gff_get 1", "gff_reread"],
               "spec": {"o": "gff_hist", "hist": [["append", c1], ["append", c2]]}}
-    return mult + [dirs, shared] + [
+    brk = ["\n", "\r", "\r\n", "\x0b", "\x0c", "\x1c", "\x1d", "\x1e", "\x85", "\u2028", "\u2029"]
+    fa_hist = [["set", f"h{i}" + c + "tail", "ACGT"] for i, c in enumerate(brk)]
+    fq_hist = [["set", f"r{i}" + c + "tail", "ACGT", [1, 2, 3, 4]] for i, c in enumerate(brk)]
+    linebreaks = [{"kind": "fasta_edit", "ops": ["fa_new 80"] + [f"fa_set {es(h)} {es(x)}" for _, h, x in fa_hist] + ["fa_items", "fa_reread"],
+                   "spec": {"o": "fasta", "cpl": 80, "hist": fa_hist}},
+                  {"kind": "fastq_edit", "ops": ["fq_new 33 -"] + [f"fq_set {es(h)} {es(x)} {ei(q)}" for _, h, x, q in fq_hist] + ["fq_items", "fq_reread"],
+                   "spec": {"o": "fastq", "off": 33, "cpl": None, "hist": fq_hist}}]
+    return mult + [dirs, shared] + linebreaks + [
         # what the qualifier syntax cannot express (C12_qualifiers_quote_inexpressible): model == real code, no oracle claim
         {"kind": "gbf_rt", "ops": ["gbf_rt " + enc_feat(inexpr[0]), "gbf_rt " + enc_feat(inexpr[1])]},
         {"kind": "org_print", "ops": [f"org_print -5 {es('ACGTACGTACGT')}", f"org_print 1 {es('')}", f"org_print 999999999 {es('ACGT' * 31)}"],
@@ -2049,10 +2056,24 @@ def _o_fasta(spec):
         it = list(FastaFile.read_iter(io.StringIO(buf.getvalue())))
         if it != list(ref.items()):
             v.append(("C12/fasta/read_iter-differs", f"{it[:3]} vs {list(ref.items())[:3]}"))
-        buf = io.StringIO(); FastaFile.write_iter(buf, list(ref.items()), spec["cpl"])
-        it = list(FastaFile.read(io.StringIO(buf.getvalue())).items())
-        if it != list(ref.items()):
-            v.append(("C12/fasta/write_iter-roundtrip", f"{it[:3]} vs {list(ref.items())[:3]}"))
+        raw = {}
+        for st in spec["hist"]:
+            if st[0] == "set":
+                raw[_norm(st[1])] = st[1]
+        # the streaming writer is a second site of every repair of the mapping interface: it gets the headers as the
+        # caller spelled them (blanks, every kind of line-break character) and must write the same text
+        raw_items = [(raw.get(k, k), x) for k, x in ref.items()]
+        try:
+            buf = io.StringIO(); FastaFile.write_iter(buf, raw_items, spec["cpl"])
+            it = list(FastaFile.read(io.StringIO(buf.getvalue())).items())
+            it2 = list(FastaFile.read_iter(io.StringIO(buf.getvalue())))
+        except Exception as e:  # noqa: BLE001
+            return v + [(f"C12/fasta/write_iter-roundtrip/raises/{type(e).__name__}", f"headers {[h for h, _ in raw_items][:3]!r}: {e}")]
+        if it != list(ref.items()) or it2 != list(ref.items()):
+            v.append(("C12/fasta/write_iter-roundtrip", f"write_iter with headers {[h for h, _ in raw_items][:3]!r}: read {it[:3]} / read_iter {it2[:3]} expected {list(ref.items())[:3]}"))
+        t_map = io.StringIO(); f.write(t_map)
+        if not v and buf.getvalue() != t_map.getvalue():
+            v.append(("C12/fasta/write_iter-differs-from-mapping", f"write_iter text {buf.getvalue()[:80]!r} but the file object writes {t_map.getvalue()[:80]!r}"))
     return v + (_alias_check("fasta", f, FastaFile, (spec["cpl"],)) if not v else [])
 
 
@@ -2155,10 +2176,31 @@ def _o_fastq(spec):
         exp = [(k, s, list(q)) for k, (s, q) in ref.items()]
         if it != exp:
             v.append(("C12/fastq/read_iter-differs", f"{it[:2]} vs {exp[:2]}"))
-        buf = io.StringIO(); FastqFile.write_iter(buf, [(k, (s, np.array(q, dtype=int))) for k, (s, q) in ref.items()], off, cpl)
-        it = canon(FastqFile.read(io.StringIO(buf.getvalue()), off).items())
-        if it != exp:
-            v.append(("C12/fastq/write_iter-roundtrip", f"{it[:2]} vs {exp[:2]}"))
+        raw = {}
+        for st in spec["hist"]:
+            if st[0] == "set":
+                raw[_norm(st[1])] = st[1]
+        raw_items = [(raw.get(k, k), (s, np.array(q, dtype=int))) for k, (s, q) in ref.items()]
+        try:
+            buf = io.StringIO(); FastqFile.write_iter(buf, raw_items, off, cpl)
+            it = canon(FastqFile.read(io.StringIO(buf.getvalue()), off).items())
+            it2 = canon(FastqFile.read_iter(io.StringIO(buf.getvalue()), off))
+        except Exception as e:  # noqa: BLE001
+            return v + [(f"C12/fastq/write_iter-roundtrip/raises/{type(e).__name__}", f"identifiers {[h for h, _ in raw_items][:3]!r}: {e}")]
+        if it != exp or it2 != exp:
+            v.append(("C12/fastq/write_iter-roundtrip", f"write_iter with identifiers {[h for h, _ in raw_items][:3]!r}: read {it[:2]} / read_iter {it2[:2]} expected {exp[:2]}"))
+        t_map = io.StringIO(); f.write(t_map)
+        if not v and buf.getvalue() != t_map.getvalue():
+            v.append(("C12/fastq/write_iter-differs-from-mapping", f"write_iter text {buf.getvalue()[:80]!r} but the file object writes {t_map.getvalue()[:80]!r}"))
+        # the refusals of __setitem__ are refusals of the streaming writer, too
+        for bad in ([("x", ("", np.array([], dtype=int)))], [("x", ("AC", np.array([1], dtype=int)))], [("x", ("AC", np.array([1, 126 - off + 1], dtype=int)))],
+                    [("x", ("AC", np.array([1, 32 - off], dtype=int)))]):
+            try:
+                FastqFile.write_iter(io.StringIO(), bad, off, cpl)
+                v.append(("C12/fastq/write_iter-accepts-unwritable-entry", f"write_iter accepted {bad[0][1][0]!r} with scores {list(bad[0][1][1])} (offset {off})"))
+                break
+            except ValueError:
+                pass
     return v + (_alias_check("fastq", f, FastqFile, (off, cpl)) if not v else [])
 
 
